@@ -9,6 +9,7 @@ import json
 import multiprocessing
 import os
 import random
+import signal
 import re
 import subprocess
 import sys
@@ -27,6 +28,17 @@ COMPONENTS_STUB = [
     'directory enumeration order (keyed permutation at the scandir seam)',
     'I/O error and short-read behaviour (fault plan at the seam)',
 ]
+
+
+RUN_TIMEOUT_S = float(os.environ.get('VERIF_RUN_TIMEOUT_S', 60))
+
+
+class RunTimeout(BaseException):
+    pass
+
+
+def _on_alarm(signum, frame):
+    raise RunTimeout('run exceeded %gs wall' % RUN_TIMEOUT_S)
 
 
 def subseed(seed, prop, i):
@@ -54,7 +66,10 @@ def _run_block(args):
             agg['skipped'] += 1
             continue
         rng = random.Random(subseed(seed, prop, i))
+        sc = None
         try:
+            signal.signal(signal.SIGALRM, _on_alarm)
+            signal.setitimer(signal.ITIMER_REAL, RUN_TIMEOUT_S)
             sc = mod.generate(rng, tier, i)
             res = mod.execute(sc)
             if i in det_check:
@@ -68,8 +83,10 @@ def _run_block(args):
                 raise
             agg['harness_errors'].append(
                 {'index': i, 'error': ''.join(traceback.format_exception(type(e), e, e.__traceback__))[-3000:],
-                 'scenario': sc if 'sc' in dir() else None})
+                 'scenario': sc})
             continue
+        finally:
+            signal.setitimer(signal.ITIMER_REAL, 0)
         merge_result(agg, res, sc, i)
     faulthandler.cancel_dump_traceback_later()
     return agg
